@@ -1,10 +1,10 @@
 package checks
 
 import (
-	"github.com/sdcio/cache/proto/cachepb"
 	"context"
 	"encoding/json"
 	"fmt"
+	"github.com/sdcio/cache/proto/cachepb"
 	"os"
 	"regexp"
 	"runtime/debug"
@@ -307,23 +307,23 @@ func mutatePath(rng *core.Rng, p string) *sdcpb.Path {
 }
 
 var c20Docs = map[string]string{
-	"/sys":                       `{"descr":"a","name":"r1","mtu":1500,"dns":["a","b"],"log":{"level":"warn","host":"h"},"b-leaf":"x","b-cont":{"x":"y","bl":[{"k":"k1","v":"v"}]}}`,
-	"/if[name=e1]":               `{"mtu":1500,"enabled":true,"descr":"d","cfg":{"speed":"auto"},"unit":[{"id":1,"vlan":10,"descr":"u"}]}`,
-	"/if":                        `[{"name":"e1","mtu":1500},{"name":"e2","descr":"x"}]`,
-	"/types":                     `{"i8":-1,"u64":"18446744073709551615","d2":"1.50","bool":true,"emp":[null],"en":"one","idref":"vft:id-one","un1":5,"un2":"1.5","bits":"b0","ll-u64":["1","2"],"ll-bool":[true,false]}`,
-	"/cons":                      `{"rng-s":-5,"len":"abc","pat":"abc","mm":[1,2],"mand":{"must-have":"x"},"mlist":[{"k":"a","req":"r"}],"lref":"e1","mst":{"a":"on","b":"x"}}`,
-	"/ch":                        `{"alpha":"a","alpha-c":{"x":"1"},"other":"o"}`,
-	"/svc[id=s1]":                `{"descr":"d","vrf":"r","ip4":"1.1.1.1"}`,
-	"/peer[name=n1][zone=z1]":    `{"as":65000,"timers":{"hold":30,"keep":10}}`,
-	"/":                          `{"sys":{"descr":"a"},"if":[{"name":"e1","mtu":9000}],"ifx":"s"}`,
-	"/pres":                      `{}`,
-	"/tri[a=k][b=1][c=x]":        `{"v":"p","w":"q"}`,
-	"/sys/b-cont/bl[k=k1]":       `{"v":"x"}`,
-	"/if[name=e1]/unit[id=1]":    `{"vlan":10}`,
-	"/cons/mlist[k=x]":           `{"req":"r","opt":"o"}`,
-	"/cons/mand":                 `{"must-have":"x"}`,
-	"/duo":                       `[{"k1":"a","k2":"b","v":"x"}]`,
-	"/if[name=e1]/cfg":           `{"speed":"full","b-flag":true}`,
+	"/sys":                    `{"descr":"a","name":"r1","mtu":1500,"dns":["a","b"],"log":{"level":"warn","host":"h"},"b-leaf":"x","b-cont":{"x":"y","bl":[{"k":"k1","v":"v"}]}}`,
+	"/if[name=e1]":            `{"mtu":1500,"enabled":true,"descr":"d","cfg":{"speed":"auto"},"unit":[{"id":1,"vlan":10,"descr":"u"}]}`,
+	"/if":                     `[{"name":"e1","mtu":1500},{"name":"e2","descr":"x"}]`,
+	"/types":                  `{"i8":-1,"u64":"18446744073709551615","d2":"1.50","bool":true,"emp":[null],"en":"one","idref":"vft:id-one","un1":5,"un2":"1.5","bits":"b0","ll-u64":["1","2"],"ll-bool":[true,false]}`,
+	"/cons":                   `{"rng-s":-5,"len":"abc","pat":"abc","mm":[1,2],"mand":{"must-have":"x"},"mlist":[{"k":"a","req":"r"}],"lref":"e1","mst":{"a":"on","b":"x"}}`,
+	"/ch":                     `{"alpha":"a","alpha-c":{"x":"1"},"other":"o"}`,
+	"/svc[id=s1]":             `{"descr":"d","vrf":"r","ip4":"1.1.1.1"}`,
+	"/peer[name=n1][zone=z1]": `{"as":65000,"timers":{"hold":30,"keep":10}}`,
+	"/":                       `{"sys":{"descr":"a"},"if":[{"name":"e1","mtu":9000}],"ifx":"s"}`,
+	"/pres":                   `{}`,
+	"/tri[a=k][b=1][c=x]":     `{"v":"p","w":"q"}`,
+	"/sys/b-cont/bl[k=k1]":    `{"v":"x"}`,
+	"/if[name=e1]/unit[id=1]": `{"vlan":10}`,
+	"/cons/mlist[k=x]":        `{"req":"r","opt":"o"}`,
+	"/cons/mand":              `{"must-have":"x"}`,
+	"/duo":                    `[{"k1":"a","k2":"b","v":"x"}]`,
+	"/if[name=e1]/cfg":        `{"speed":"full","b-flag":true}`,
 }
 
 func mutateJSON(rng *core.Rng, v any, depth int) any {
